@@ -57,10 +57,10 @@ def run(ctx):
         jobs.gen("arrivals3", cfg([(C11, C11, C12), (C11, C11, C11)], gates=GATES, depth=12, **anch))
         jobs.gen("reopen", cfg([(R11, C11, C11)], gates=GATES, depth=n(10, 14), **anch), simulate=n(120, None))
         jobs.gen("admin", cfg([(C11, C12, C21, C11), (R11, C11, C12, C21)], gates=GATES, depth=16, admin=ADMIN, maxadmin=2, **anch),
-                 simulate=n(150, 2500))
+                 simulate=n(150, 2000))
         jobs.gen("cap0", cfg([(C11, C11, C12)], caps={1: 0}, init=(), gates=GATES + ["closed"], depth=14), simulate=n(60, 600))
         if not q:
-            jobs.gen("arrivals5", cfg([(C11, C11, C12, C12, C21), (C11, C11, C11, C11, C12)], gates=GATES, depth=18, **anch), simulate=2500)
+            jobs.gen("arrivals5", cfg([(C11, C11, C12, C12, C21), (C11, C11, C11, C11, C12)], gates=GATES, depth=18, **anch), simulate=2000)
         # boundary scenarios: the last-session race (C17's) seen through C15's statement
         jobs.gen("gap", cfg([(panel.S11, C12, C12)], gates=panel.CONN_GATES, depth=14), keep=panel.has_dup)
         jobs.gen("stale", cfg([(panel.S11, R12, C12, C12)], dev=panel.CODE_DEV + ["StaleTerminate"], gates=["unlocked"], depth=12),
